@@ -168,6 +168,23 @@ fn tree_bfs_cfg(version: u16, npaths: usize, oracles: Oracles, burst_len: usize)
     }
 }
 
+/// Flat sibling alphabet: create/remove of n same-length names in one storage
+/// (closure = every insertion and removal order, every sibling-tree shape).
+fn flat_bfs_cfg(version: u16, n: usize, with_storage: bool, oracles: Oracles) -> BfsCfg {
+    let names = ["m", "d", "x", "h", "f", "t", "b"];
+    let mut ops = Vec::new();
+    for nm in &names[..n] {
+        ops.push(Op::CreateStream(format!("/{}", nm)));
+        ops.push(Op::RemoveStream(format!("/{}", nm)));
+    }
+    // one storage among the siblings, and a nested copy of the first three names
+    if with_storage {
+        ops.push(Op::CreateStorage("/k".into()));
+        ops.push(Op::RemoveStorage("/k".into()));
+    }
+    BfsCfg { version, seed: "fresh".into(), ops, oracles, extra_paths: names[..n].iter().map(|s| format!("/{}", s)).collect(), max_depth: None, burst_len: 0, max_states: 50_000_000 }
+}
+
 fn c01(tier: &str, thorough: bool) -> i32 {
     let ctx = Ctx::new("C01", tier, level_mc(), "e1", &["model"]);
     common_assumptions(&ctx);
@@ -177,6 +194,7 @@ fn c01(tier: &str, thorough: bool) -> i32 {
     for v in [3u16, 4] {
         add_bfs(&ctx, &mut tot, "tree", &tree_bfs_cfg(v, if thorough { 6 } else { 4 }, o, 0));
         add_bfs(&ctx, &mut tot, "tree+bursts", &tree_bfs_cfg(v, if thorough { 4 } else { 3 }, o, if thorough { 3 } else { 2 }));
+        add_bfs(&ctx, &mut tot, "flat siblings", &flat_bfs_cfg(v, 5, thorough, o));
         let sizes = if thorough { sizes_thorough(v) } else { sizes_quick(v) };
         let a = DataAlpha { paths: vec!["/s", "/t"], rewrite: sizes.clone(), setlen: vec![], append: vec![], patch: vec![], remove: true };
         add_enum(
@@ -204,13 +222,14 @@ fn c02(tier: &str, thorough: bool) -> i32 {
     let mut tot = (0u64, 0u64);
     for v in [3u16, 4] {
         add_bfs(&ctx, &mut tot, "tree", &tree_bfs_cfg(v, if thorough { 6 } else { 4 }, o, 0));
+        add_bfs(&ctx, &mut tot, "flat siblings", &flat_bfs_cfg(v, 5, thorough, o));
         let sizes = if thorough { sizes_thorough(v) } else { sizes_quick(v) };
         let a = DataAlpha {
             paths: vec!["/s", "/t"],
             rewrite: sizes.clone(),
             setlen: vec![0, 64, 4096],
             append: vec![1, 4096],
-            patch: vec![],
+            patch: vec![(0, 4100)],
             remove: true,
         };
         add_enum(
@@ -270,17 +289,18 @@ fn c03(tier: &str, thorough: bool) -> i32 {
     let mut tot = (0u64, 0u64);
     for v in [3u16, 4] {
         add_bfs(&ctx, &mut tot, "tree", &tree_bfs_cfg(v, if thorough { 6 } else { 4 }, o, 0));
+        add_bfs(&ctx, &mut tot, "flat siblings", &flat_bfs_cfg(v, 5, thorough, o));
         let sizes = if thorough { sizes_thorough(v) } else { sizes_quick(v) };
         let a = DataAlpha {
             paths: vec!["/s", "/t"],
             rewrite: sizes.clone(),
             setlen: vec![0, 1, 64, 65, 4095, 4096, 4097],
             append: vec![1, 65, 4096],
-            patch: vec![(0, 2), (4095, 2)],
+            patch: vec![(0, 2), (4095, 2), (0, 4096), (0, 4100), (10, 4090), (64, 8200)],
             remove: true,
         };
         add_enum(&ctx, &mut tot, "data", &EnumCfg { version: v, seed: "fresh".into(), ops: data_ops(&a), depth: if thorough { 3 } else { 2 }, oracles: o, extra_paths: vec![], one_reopen: false, extend_refused: false });
-        let small = DataAlpha { paths: vec!["/s", "/t"], rewrite: vec![0, 65, 4096], setlen: vec![1, 4097], append: vec![64], patch: vec![], remove: true };
+        let small = DataAlpha { paths: vec!["/s", "/t"], rewrite: vec![0, 65, 4096], setlen: vec![1, 4097], append: vec![64], patch: vec![(0, 4100)], remove: true };
         add_enum(&ctx, &mut tot, "data deep", &EnumCfg { version: v, seed: "fresh".into(), ops: data_ops(&small), depth: if thorough { 5 } else { 4 }, oracles: o, extra_paths: vec![], one_reopen: false, extend_refused: false });
     }
     for (v, seed) in growth_seeds(thorough) {
@@ -464,13 +484,13 @@ fn c13(tier: &str, thorough: bool) -> i32 {
     crate::watch::start(ctx, std::time::Duration::from_secs(30));
     ctx.assume("faults are injected at the Write/Seek/Flush calls of the backend; a failed call has no effect on the backend");
     ctx.assume("handles are flushed explicitly before being dropped; Drop is not relied on (excluded by the property)");
-    ctx.set_rule("for each mutating workload: fault-free run, then one run per write/seek/flush call index k failing (thorough: all pairs), retrying each failed API call up to 3 times and running the rest of the workload; oracles: a fault delivered during an API call makes that call return Err; no panic or hang afterwards; whenever flush returns Ok a fresh handle reads back every byte accepted by earlier writes");
+    ctx.set_rule("for each mutating workload: fault-free run, then one run per write/seek/flush call index k failing (thorough: all pairs of positions after the file has been created with the second fault within the next 300 (V3) / 60 (V4) underlying calls, i.e. in the retry and what follows), retrying each failed API call up to 3 times and running the rest of the workload; oracles: a fault delivered during an API call makes that call return Err; no panic or hang afterwards; whenever flush returns Ok a fresh handle reads back every byte accepted by earlier writes");
     let mut runs = 0u64;
     let mut calls = 0u64;
     for v in [3u16, 4] {
         for (name, max_buf, steps) in crate::e4::mutating_workloads() {
             let case = crate::e4::FaultCase { workload: name.clone(), version: v, max_buf, steps, plan: vec![], kinds: vec![CallKind::Write, CallKind::Seek, CallKind::Flush], read_only: false };
-            let st = crate::e4::explore(ctx, &case, None, &[CallKind::Write, CallKind::Seek, CallKind::Flush], if thorough { crate::e4::Pairs::All } else { crate::e4::Pairs::None });
+            let st = crate::e4::explore(ctx, &case, None, &[CallKind::Write, CallKind::Seek, CallKind::Flush], if thorough { crate::e4::Pairs::Near(if v == 3 { 300 } else { 60 }) } else { crate::e4::Pairs::None });
             ctx.note(format!("v{} {}: fault positions={} runs={} underlying calls executed={} faults delivered={}", v, name, st.positions, st.runs, st.calls, st.faults_delivered));
             runs += st.runs;
             calls += st.calls;
@@ -624,7 +644,10 @@ fn c09(tier: &str, thorough: bool) -> i32 {
             let few: Vec<String> = names.iter().filter(|n| !n.is_ascii() || n.len() == 1).take(12).cloned().collect();
             add(crate::e1n::coexistence(ctx, v, &few, 5), &format!("v{} coexistence k=5 over {} names", v, few.len()), ctx);
         } else {
-            add(crate::e1n::coexistence(ctx, v, &names, 3), &format!("v{} coexistence k=3 over {} names", v, names.len()), ctx);
+            // quick: all ordered triples over a 22-name subset that keeps every class of name, all ordered pairs over everything
+            let sub: Vec<String> = names.iter().enumerate().filter(|(i, _)| ![1usize, 4, 6, 10, 14, 18, 19, 21, 23, 25, 27, 28, 29, 30, 31, 33, 34, 39].contains(i)).map(|(_, n)| n.clone()).collect();
+            add(crate::e1n::coexistence(ctx, v, &sub, 3), &format!("v{} coexistence k=3 over {} names", v, sub.len()), ctx);
+            add(crate::e1n::coexistence(ctx, v, &names, 2), &format!("v{} coexistence k=2 over {} names", v, names.len()), ctx);
             if v == 3 {
                 let few: Vec<String> = ["a", "B", "\u{e9}", "\u{1f600}", "\u{e000}a", "\u{3a9}", "ab", "\u{ff21}"].iter().map(|s| s.to_string()).collect();
                 add(crate::e1n::coexistence(ctx, v, &few, 4), &format!("v{} coexistence k=4 over {} names", v, few.len()), ctx);
